@@ -98,11 +98,14 @@ func propC13(c *Ctx) {
 		"AddValidator inserts only when the operator is absent, the consensus key is absent and len(all) < MaxValidators",
 		"told <=> recorded: every positive-power update appended is paired with SetLastValidatorPower(addr, power) and comes from a record with ConsensusPower > 0; every removal update is paired with RemoveValidator + DeleteLastValidatorPower of the same address and a record with ConsPower <= 0; bonded validators are deleted from the 'last' map so that they are not reported as removed; removals are emitted from the sorted slice",
 		"zero-power records are purged: a record with power <= 0 is either in the last-power set (removed below) or removed immediately",
-		"Params.Set only with MaxValidators >= len(all) (or without touching MaxValidators)")
-	c.NotDecided = append(c.NotDecided, "equality of the accumulated update history with the state (a history statement; the per-block pairing above is its inductive step)", "historical-info retention arithmetic", "what CometBFT accepts (duplicate keys across one batch are decided only for the fresh-insertion sites, see C14 known findings)")
+		"Params.Set only with MaxValidators >= len(all) (or without touching MaxValidators)",
+		"historical record: written once per block at the current height from the bonded set, never with retention 0; pruning removes the contiguous run of heights from height-entries downwards and stops only at the first gap",
+		"no negative power: Validator.ConsPower is written only with the constants 1 (creation) and 0 (removal, executor change); ABCI updates report exactly that field")
+	c.NotDecided = append(c.NotDecided, "equality of the accumulated update history with the state (a history statement; the per-block pairing above is its inductive step)", "what CometBFT accepts (duplicate keys across one batch are decided only for the fresh-insertion sites, see C14 known findings)")
 	c.Assumptions = append(c.Assumptions, "A1", "A2", "A3", "A10")
 	K := "opchild/keeper.Keeper"
 
+	defer c13Historical(c)
 	c.Rule("C13.R1", func() {
 		c.writersTable("C13.R1", K, "Validators", setOf("Set"), []string{"(opchild/keeper.Keeper).SetValidator", "(opchild/keeper.Keeper).ChangeExecutor"})
 		c.writersTable("C13.R1", K, "Validators", setOf("Remove", "Clear"), []string{"(opchild/keeper.Keeper).RemoveValidator"})
